@@ -43,14 +43,25 @@ def opValidate (args : List String) : String :=
     | _, _, _, _, _ => "bad-op"
   | _ => "bad-op"
 
-/-- one scripted test: `exp,stream,skip,timeout,accEmpty,status,accOut,accErr,dur` -/
-def parseTest (s : String) : Option (TC × Out × Option Nat) :=
+/-- a scripted test: configuration, prepared output, duration of the command (`none` = the
+runner ignores the limit and no time passes) and `config.wait` (ms that pass between the
+computation of the limit and the start of the command) -/
+structure ST where
+  tc : TC
+  out : Out
+  dur : Option Nat
+  wait : Nat
+
+/-- one scripted test: `exp,stream,skip,timeout,accEmpty,status,accOut,accErr,dur[,wait]` -/
+def parseTest (s : String) : Option ST :=
+  let go (e st sk to ae0 status ao ae dur : String) (wait : Option Nat) : Option ST :=
+    match optInt e, parseStream st, optInt sk, optNat to, bool01 ae0, parseStatus status, bool01 ao, bool01 ae, optNat dur, wait with
+    | some e, some st, some sk, some to, some ae0, some status, some ao, some ae, some dur, some wait =>
+      some ⟨⟨e, st, sk, to, ae0⟩, ⟨status, ao, ae⟩, dur, wait⟩
+    | _, _, _, _, _, _, _, _, _, _ => none
   match s.splitOn "," with
-  | [e, st, sk, to, ae0, status, ao, ae, dur] =>
-    match optInt e, parseStream st, optInt sk, optNat to, bool01 ae0, parseStatus status, bool01 ao, bool01 ae, optNat dur with
-    | some e, some st, some sk, some to, some ae0, some status, some ao, some ae, some dur =>
-      some (⟨e, st, sk, to, ae0⟩, ⟨status, ao, ae⟩, dur)
-    | _, _, _, _, _, _, _, _, _ => none
+  | [e, st, sk, to, ae0, status, ao, ae, dur] => go e st sk to ae0 status ao ae dur (some 0)
+  | [e, st, sk, to, ae0, status, ao, ae, dur, wait] => go e st sk to ae0 status ao ae dur wait.toNat?
   | _ => none
 
 def showLimit (isGlobal : Bool) (l : Option Nat) : String :=
@@ -63,17 +74,17 @@ def showResult : ExecResult → String
   | .skipped i => s!"skipped:{i}"
   | .timeout g i outs => s!"timeout:{if g then "G" else "P"}:{i}:" ++ ",".intercalate (outs.map (fun o => showStatus o.status))
 
-def mkRunner (tests : Array (TC × Out × Option Nat)) : Runner := fun i lim =>
+def mkRunner (tests : Array ST) : Runner := fun i lim =>
   match tests[i]? with
   | none => (⟨.unknown, false, false⟩, 0)
-  | some (_, o, none) => (o, 0)                 -- scripted: ignores the limit, no time passes
-  | some (_, o, some dur) => honest (fun _ => (dur, o)) i lim
+  | some ⟨_, o, none, _⟩ => (o, 0)               -- scripted: ignores the limit, no time passes
+  | some ⟨_, o, some dur, wait⟩ => honestWait (fun _ => (wait, dur, o)) i lim
 
 /-- is the limit handed for test `i` attributed to the document? recomputed for display only -/
-def limitsShown (total : Option Nat) (tests : List (TC × Out × Option Nat)) (limits : List (Option Nat)) : String :=
+def limitsShown (total : Option Nat) (tests : List ST) (limits : List (Option Nat)) : String :=
   -- a limit is shown as `P<ms>` when it equals the test's own timeout, else `G`
-  let rec go : List (TC × Out × Option Nat) → List (Option Nat) → List String
-    | (tc, _, _) :: ts, l :: ls =>
+  let rec go : List ST → List (Option Nat) → List String
+    | ⟨tc, _, _, _⟩ :: ts, l :: ls =>
       (match l with
        | none => "-"
        | some v => if tc.timeout = some v then s!"P{v}" else "G") :: go ts ls
@@ -82,7 +93,7 @@ def limitsShown (total : Option Nat) (tests : List (TC × Out × Option Nat)) (l
   ",".intercalate (go tests limits)
 
 /-- a document: `<total>;<test>;…`, total prefixed with `C` for a Cram document (one script) -/
-def parseDoc (s : String) : Option (Option (Bool × Option Nat × List (TC × Out × Option Nat))) :=
+def parseDoc (s : String) : Option (Option (Bool × Option Nat × List ST)) :=
   if s == "ERR" then some none else
   match s.splitOn ";" with
   | total :: tests =>
@@ -96,14 +107,14 @@ def parseDoc (s : String) : Option (Option (Bool × Option Nat × List (TC × Ou
 /-- In a Cram document a test status `c-<n>`… is not used; a test that LEAVES the shell is written
     as status `code n` with `dur = some 1` (marker): the script ends there with that code and no
     divider is printed for it or anything after it. -/
-def runExec (cram : Bool) (total : Option Nat) (tests : List (TC × Out × Option Nat)) : Option (ExecResult × List (Option Nat)) :=
+def runExec (cram : Bool) (total : Option Nat) (tests : List ST) : Option (ExecResult × List (Option Nat)) :=
   if cram then
-    let before := tests.takeWhile (fun t => t.2.2 ≠ some 1)
-    let script : Status := match tests.find? (fun t => t.2.2 = some 1) with
-      | some t => t.2.1.status
+    let before := tests.takeWhile (fun t => t.dur ≠ some 1)
+    let script : Status := match tests.find? (fun t => t.dur = some 1) with
+      | some t => t.out.status
       | none => .code 0
-    (execScript (tests.map (·.1)) script (before.map (·.2.1))).map (fun r => (r, []))
-  else some (execAll total (mkRunner tests.toArray) (tests.map (·.1)))
+    (execScript (tests.map (·.tc)) script (before.map (·.out))).map (fun r => (r, []))
+  else some (execAll total (mkRunner tests.toArray) (tests.map (·.tc)))
 
 /-- `exec <doc>`: executor loop only -/
 def opExec (args : List String) : String :=
@@ -124,7 +135,7 @@ def opRunDocs (args : List String) : String :=
     match (ds.splitOn "|").mapM parseDoc with
     | some docs =>
       let outcomes : List (Option (List Outcome)) := docs.map (fun d => d.bind (fun (cram, total, tests) =>
-        (runExec cram total tests).map (fun r => runDocument (tests.map (·.1)) r.1)))
+        (runExec cram total tests).map (fun r => runDocument (tests.map (·.tc)) r.1)))
       let showDoc : Option (List Outcome) → String
         | none => "ERR"
         | some os => ",".intercalate (os.map (fun (i, v) => s!"{i}:{match v with | .invalidExit _ _ => "invalid_exit_code" | v => showVerdict v}"))
